@@ -1,6 +1,7 @@
 import DS.Driver.Common
 import DS.Driver.ErrFmtD
 import DS.Model.Peg
+import DS.Model.StList
 import DS.Gen.Grammar
 import DS.Gen.Actions
 import DS.Gen.Unicode
@@ -87,6 +88,22 @@ def matchRestLine (toks : List String) : String :=
           s!"m={hexOf mb} r={hexOf rb}"
         | none => "invalid-utf8-prefix")
      | _, _ => "bad-op")
+  | _ => "bad-op"
+
+
+/-- stlist <hexsrc> : the plain-assignment reader of DS/Model/StList.lean on the text after `^st` -/
+def stListLine (toks : List String) : String :=
+  match toks with
+  | ["stlist", src] =>
+    (match (if src == "-" then some "" else DS.Hex.decode src) with
+     | some s =>
+       let P (c : Char) : Bool := c.isAlpha || c == '_' || c == '$' || c.toNat ≥ 128
+       (match DS.StList.readEdits P (s.length + 2) s.toList with
+        | some es =>
+          let canon := ";".intercalate (es.map (fun (n, v) => String.ofList n ++ "|" ++ String.ofList v))
+          "ok " ++ (if canon.isEmpty then "-" else hx canon)
+        | none => "none")
+     | none => "bad-op")
   | _ => "bad-op"
 
 end DS.Driver
